@@ -194,7 +194,7 @@ def gen_map_case(rng):
             elif r < 0.65: toks += ['i', '6', str(k), str(v)]
             else: toks += ['r', '6', str(k)]
             continue
-        if r < 0.22: toks += ['w', str(kt), str(k), str(rng.randint(0, 9))]
+        if r < 0.22: toks += [rng.choice(['w', 'w', 'm']), str(kt), str(k), str(rng.randint(0, 9))]     # m: the writer's in-place route (get / get_mut)
         elif r < 0.30: toks += ['x', str(kt), str(k)]
         elif r < 0.40: toks += ['i', str(kt), str(k), str(rng.randint(0, 9))]
         elif r < 0.60: toks += ['r', str(kt), str(k)]
@@ -222,7 +222,8 @@ def gen_map_cases(rng, tier):
               "w 4 0 200 t 0 4 0 w 4 0 300 c 0 r 4 0 w 4 1 5 t 1 4 1 w 4 1 105 c 1".split(),
               "w 5 0 7 r 5 1 w 5 1 8 r 5 0 r 5 1 t 0 5 0 x 5 1 c 0 r 5 0".split(),
               "w 6 0 1 r 6 0 w 6 0 2 r 6 0 i 6 0 1 r 6 0 w 6 0 12 r 6 0".split(),
-              "w 1 0 5 w 2 0 6 s 3 11 4 p 0 r 1 0 r 2 0 g 3 11 p 1 r 1 0".split()]       # a build aborted inside Context::write: every state is still there         # values that are == but not identical: the last one stored is read       # the type-erased route, then the typed ones
+              "w 1 0 5 w 2 0 6 s 3 11 4 p 0 r 1 0 r 2 0 g 3 11 p 1 r 1 0".split(),
+              "m 1 0 5 r 1 0 m 1 0 6 r 1 0 t 0 1 0 m 1 0 7 c 0 x 1 0 m 1 0 8 r 1 0".split()]       # a build aborted inside Context::write: every state is still there         # values that are == but not identical: the last one stored is read       # the type-erased route, then the typed ones
     return corpus + [gen_map_case(rng) for _ in range(n)]
 
 
@@ -260,7 +261,7 @@ def map_oracle(toks, lines):
         elif op == 'r':
             kt, k = int(toks[i + 1]), int(toks[i + 2]); i += 3
             exp = 'r ' + o(gmap(kt).get(k))
-        elif op in ('w', 'i'):
+        elif op in ('w', 'i', 'm'):
             kt, k, v = int(toks[i + 1]), int(toks[i + 2]), int(toks[i + 3]); i += 4
             gmap(kt)[k] = v; exp = 'u'
         elif op == 'x':
@@ -463,6 +464,9 @@ def fs_oracle(toks, lines):
             if w[0] != 'eq=1': return '%s: stamp from a just-used writer differs from a stamp of the path in the same state' % names[c]
             if w[1] != 'content=1': return 'opening for writing did not create/truncate the file (state %r)' % (s1,)
             if w2[0] != 'content=1': return 'a second, shorter write of the same path through the same Pie did not truncate the file (state %r)' % (s1,)
+            w3 = d.get(('w3', c))
+            if w3 is None: return 'probe output incomplete for checker %s (w3)' % c
+            if w3[0] != 'eq=1': return '%s: the path was removed while the writer was open: the stamp from the writer differs from the stamp of the (absent) path' % names[c]
         exp = None
         if c == 'E': exp = ex(s1) != ex(s2)
         elif c == 'M': exp = mt(s1) != mt(s2)
